@@ -10,11 +10,15 @@
 //!
 //! The enumeration is a union of complete sub-spaces (see `spaces`); each sub-space is the full
 //! product  master set x per-master group patterns x sets of <= k kerning keys x per-key value options,
-//! filtered only by well-formedness (a key is written into a master only if the groups it names exist
-//! there).
+//! filtered only by well-formedness (combinations in which a key would name a group that its master does
+//! not define are left out: no dangling group references).
+//!
+//! Most sub-spaces hand the compiler a designspace + UFOs (groups per master); two hand it a Glyphs 3
+//! file (groups global), judged by the same reference.
 //!
 //! Environment knobs (debugging only): C09_COUNT=1 prints the sub-space sizes and exits;
-//! C09_ONLY=<sub-space name> runs a single sub-space.
+//! C09_ONLY=<sub-space name> runs a single sub-space; C09_CAP_S=<seconds> changes the time cap;
+//! C09_BENCH=1 prints the CPU cost of the stages; C09_PROFILE=1 prints per-case stage timings.
 
 use dgen::*;
 use otlayout::{FeatureSel, LFont, ShapeRequest, Table};
@@ -131,8 +135,21 @@ struct Entry {
     values: Vec<Option<f64>>,
 }
 
+/// The source format the design is handed to the compiler in.
+#[derive(Clone, Copy, Debug, Default, PartialEq, Eq, Serialize, Deserialize)]
+enum Src {
+    /// a designspace with one UFO per master (groups are per master)
+    #[default]
+    Ufo,
+    /// one Glyphs 3 file (groups are a property of the glyph, hence the same in every master: only
+    /// uniform group configurations are representable; `public.kernN.X` is written as `@MMK_L_X`/`@MMK_R_X`)
+    Glyphs3,
+}
+
 #[derive(Clone, Debug, PartialEq, Serialize, Deserialize)]
 struct Case {
+    #[serde(default)]
+    src: Src,
     ms: MasterSet,
     /// per master: (side-1 pattern, side-2 pattern)
     groups: Vec<(u8, u8)>,
@@ -150,7 +167,8 @@ impl Case {
                 format!("({},{})=[{}]", short(&side_name(1, e.first)), short(&side_name(2, e.second)), v.join(","))
             })
             .collect();
-        format!("{} groups[{}] {}", self.ms.name(), g.join(" "), e.join(" "))
+        let src = if self.src == Src::Glyphs3 { "glyphs3 " } else { "" };
+        format!("{src}{} groups[{}] {}", self.ms.name(), g.join(" "), e.join(" "))
     }
 }
 
@@ -210,6 +228,7 @@ struct Sub {
     mode: GroupMode,
     max_keys: usize,
     opts: Vec<Vec<Option<f64>>>,
+    src: Src,
     /// smallest key-set size enumerated here (smaller sets are covered by another sub-space)
     min_keys: usize,
     /// keep only group configurations in which some master uses this pattern on some side
@@ -329,7 +348,7 @@ fn block_cases(sub: &Sub, cfg: &[(u8, u8)], count_only: bool) -> (Vec<Case>, u64
         if left == 0 {
             *count += 1;
             if !count_only {
-                out.push(Case { ms: sub.ms, groups: cfg.to_vec(), entries: cur.clone() });
+                out.push(Case { src: sub.src, ms: sub.ms, groups: cfg.to_vec(), entries: cur.clone() });
             }
             return;
         }
@@ -356,6 +375,7 @@ fn spaces(tier: Tier) -> Vec<Sub> {
         Tier::Quick => {
             // the cascade under identical groups, two masters
             v.push(Sub {
+                src: Src::Ufo,
                 min_keys: 1,
                 must_use: None,
                 name: "ends/uniform/2keys",
@@ -375,6 +395,7 @@ fn spaces(tier: Tier) -> Vec<Sub> {
             let mut one = opts_product(2, &V4);
             one.push(o(&[s(-50.0), s(30.0)]));
             v.push(Sub {
+                src: Src::Ufo,
                 min_keys: 1,
                 must_use: None,
                 name: "ends/independent/1key",
@@ -386,6 +407,7 @@ fn spaces(tier: Tier) -> Vec<Sub> {
             });
             // two keys while one side's groups differ between the masters
             v.push(Sub {
+                src: Src::Ufo,
                 min_keys: 2,
                 must_use: None,
                 name: "ends/one-side-divergent/2keys",
@@ -399,6 +421,7 @@ fn spaces(tier: Tier) -> Vec<Sub> {
             let mut mid = opts_product(3, &[-50.0, 12.5]);
             mid.push(o(&[s(-50.0), s(-10.0), s(30.0)]));
             v.push(Sub {
+                src: Src::Ufo,
                 min_keys: 1,
                 must_use: None,
                 name: "ends+mid/uniform/1key",
@@ -409,6 +432,7 @@ fn spaces(tier: Tier) -> Vec<Sub> {
                 opts: mid,
             });
             v.push(Sub {
+                src: Src::Ufo,
                 min_keys: 1,
                 must_use: None,
                 name: "ends+mid/uniform/2keys",
@@ -423,6 +447,7 @@ fn spaces(tier: Tier) -> Vec<Sub> {
                 ],
             });
             v.push(Sub {
+                src: Src::Ufo,
                 min_keys: 1,
                 must_use: None,
                 name: "ends+mid/one-master-deviates/1key",
@@ -437,11 +462,41 @@ fn spaces(tier: Tier) -> Vec<Sub> {
                     o(&[s(-50.0), s(-10.0), None]),
                 ],
             });
+            // the same through the Glyphs reader (groups are global there)
+            v.push(Sub {
+                src: Src::Glyphs3,
+                min_keys: 1,
+                must_use: None,
+                name: "glyphs3/ends/uniform/2keys",
+                ms: MasterSet::Ends,
+                patterns: &[0, 2, 3],
+                mode: GroupMode::Uniform,
+                max_keys: 2,
+                opts: vec![o(&[s(-50.0), s(-50.0)]), o(&[s(30.0), None]), o(&[None, s(12.5)])],
+            });
+            v.push(Sub {
+                src: Src::Glyphs3,
+                min_keys: 1,
+                must_use: None,
+                name: "glyphs3/ends+mid/uniform/1key",
+                ms: MasterSet::EndsMid,
+                patterns: &[0, 2, 3],
+                mode: GroupMode::Uniform,
+                max_keys: 1,
+                opts: vec![
+                    o(&[s(-50.0), s(-50.0), s(-50.0)]),
+                    o(&[s(30.0), None, s(30.0)]),
+                    o(&[None, s(12.5), None]),
+                    o(&[s(-50.0), s(-10.0), None]),
+                    o(&[None, None, s(0.0)]),
+                ],
+            });
         }
         Tier::Thorough => {
             let mut full2 = opts_product(2, &V4);
             full2.push(o(&[s(-50.0), s(30.0)]));
             v.push(Sub {
+                src: Src::Ufo,
                 min_keys: 1,
                 must_use: None,
                 name: "ends/uniform/2keys",
@@ -452,6 +507,7 @@ fn spaces(tier: Tier) -> Vec<Sub> {
                 opts: full2.clone(),
             });
             v.push(Sub {
+                src: Src::Ufo,
                 min_keys: 1,
                 must_use: Some(4),
                 name: "ends/uniform-with-pattern4/2keys",
@@ -468,6 +524,7 @@ fn spaces(tier: Tier) -> Vec<Sub> {
                 ],
             });
             v.push(Sub {
+                src: Src::Ufo,
                 min_keys: 3,
                 must_use: None,
                 name: "ends/uniform/3keys",
@@ -478,6 +535,7 @@ fn spaces(tier: Tier) -> Vec<Sub> {
                 opts: vec![o(&[s(-50.0), s(-50.0)]), o(&[s(30.0), None]), o(&[None, s(12.5)])],
             });
             v.push(Sub {
+                src: Src::Ufo,
                 min_keys: 1,
                 must_use: None,
                 name: "ends/independent/1key",
@@ -488,6 +546,7 @@ fn spaces(tier: Tier) -> Vec<Sub> {
                 opts: full2.clone(),
             });
             v.push(Sub {
+                src: Src::Ufo,
                 min_keys: 2,
                 must_use: None,
                 name: "ends/independent/2keys",
@@ -503,6 +562,7 @@ fn spaces(tier: Tier) -> Vec<Sub> {
                 ],
             });
             v.push(Sub {
+                src: Src::Ufo,
                 min_keys: 2,
                 must_use: None,
                 name: "ends/one-side-divergent/3keys",
@@ -516,6 +576,7 @@ fn spaces(tier: Tier) -> Vec<Sub> {
             mid.push(o(&[s(-50.0), s(-10.0), s(30.0)]));
             for ms in [MasterSet::EndsMid, MasterSet::MinDefMax] {
                 v.push(Sub {
+                src: Src::Ufo,
                 min_keys: 1,
                 must_use: None,
                     name: if ms == MasterSet::EndsMid { "ends+mid/uniform/1key" } else { "min-def-max/uniform/1key" },
@@ -526,6 +587,7 @@ fn spaces(tier: Tier) -> Vec<Sub> {
                     opts: mid.clone(),
                 });
                 v.push(Sub {
+                src: Src::Ufo,
                 min_keys: 2,
                 must_use: None,
                     name: if ms == MasterSet::EndsMid { "ends+mid/uniform/2keys" } else { "min-def-max/uniform/2keys" },
@@ -543,6 +605,7 @@ fn spaces(tier: Tier) -> Vec<Sub> {
                     ],
                 });
                 v.push(Sub {
+                    src: Src::Ufo,
                     min_keys: if ms == MasterSet::EndsMid { 2 } else { 1 },
                     must_use: None,
                     name: if ms == MasterSet::EndsMid {
@@ -562,6 +625,7 @@ fn spaces(tier: Tier) -> Vec<Sub> {
                 });
             }
             v.push(Sub {
+                src: Src::Ufo,
                 min_keys: 1,
                 must_use: None,
                 name: "ends+mid/independent/1key",
@@ -577,6 +641,41 @@ fn spaces(tier: Tier) -> Vec<Sub> {
                 ],
             });
             v.push(Sub {
+                src: Src::Glyphs3,
+                min_keys: 1,
+                must_use: None,
+                name: "glyphs3/ends/uniform/2keys",
+                ms: MasterSet::Ends,
+                patterns: &[0, 1, 2, 3, 4],
+                mode: GroupMode::Uniform,
+                max_keys: 2,
+                opts: vec![
+                    o(&[s(-50.0), s(-50.0)]),
+                    o(&[s(30.0), None]),
+                    o(&[None, s(12.5)]),
+                    o(&[s(0.0), s(0.0)]),
+                    o(&[s(-50.0), s(30.0)]),
+                ],
+            });
+            v.push(Sub {
+                src: Src::Glyphs3,
+                min_keys: 1,
+                must_use: None,
+                name: "glyphs3/ends+mid/uniform/2keys",
+                ms: MasterSet::EndsMid,
+                patterns: &[0, 2, 3],
+                mode: GroupMode::Uniform,
+                max_keys: 2,
+                opts: vec![
+                    o(&[s(-50.0), s(-50.0), s(-50.0)]),
+                    o(&[s(30.0), None, s(30.0)]),
+                    o(&[None, s(12.5), None]),
+                    o(&[s(-50.0), s(-10.0), None]),
+                    o(&[None, None, s(0.0)]),
+                ],
+            });
+            v.push(Sub {
+                src: Src::Ufo,
                 min_keys: 1,
                 must_use: None,
                 name: "two-axes/uniform/2keys",
@@ -893,7 +992,7 @@ const LEVEL_NAMES: [&str; 5] = ["glyph-glyph", "glyph-group", "group-glyph", "gr
 
 /// `fresh`: compile on a thread of its own (deterministic hash keys, ~10x dearer — used to confirm a
 /// failure and in replays); otherwise on the calling worker thread.
-fn evaluate(d: &Design, fresh: bool) -> EvalOut {
+fn evaluate(d: &Design, src: Src, fresh: bool) -> EvalOut {
     let mut out = EvalOut { viol: vec![], machinery: vec![], stats: Stats::default(), summary: Value::Null };
     let st = &mut out.stats;
     st.cases = 1;
@@ -968,7 +1067,11 @@ fn evaluate(d: &Design, fresh: bool) -> EvalOut {
     let prof = std::env::var("C09_PROFILE").is_ok();
     let tp = std::time::Instant::now();
     let sc = vcore::Scratch::new("c09");
-    let path = match d.write_designspace(sc.path()) {
+    let written = match src {
+        Src::Ufo => d.write_designspace(sc.path()),
+        Src::Glyphs3 => d.write_glyphs3(sc.path()),
+    };
+    let path = match written {
         Ok(p) => p,
         Err(e) => {
             out.machinery.push(format!("cannot write the source: {e}"));
@@ -1214,14 +1317,15 @@ fn replay(path: &std::path::Path) -> ! {
         _ => serde_json::from_value(r["design"].clone())
             .unwrap_or_else(|e| vcore::machinery_error(&format!("replay has no usable design: {e}"))),
     };
-    println!("replaying {}", v["key"].as_str().unwrap_or("?"));
+    let src: Src = serde_json::from_value(r["case"]["src"].clone()).unwrap_or_default();
+    println!("replaying {} (source format {src:?})", v["key"].as_str().unwrap_or("?"));
     if let Ok(c) = serde_json::from_value::<Case>(r["case"].clone()) {
         println!("source: {}", c.label());
     }
     for (mi, m) in d.masters.iter().enumerate() {
         println!("master {mi} at {:?}: groups {:?} kerning {:?}", m.loc, m.groups, m.kerning);
     }
-    let out = evaluate(&d, true);
+    let out = evaluate(&d, src, true);
     for m in &out.machinery {
         println!("machinery: {m}");
     }
@@ -1264,6 +1368,7 @@ fn cpu_now() -> f64 {
 fn bench() -> ! {
     for with_kern in [false, true] {
         let c = Case {
+            src: Src::Ufo,
             ms: MasterSet::Ends,
             groups: vec![(2, 2), (2, 2)],
             entries: if with_kern { vec![Entry { first: 2, second: 2, values: vec![Some(-50.0), Some(30.0)] }] } else { vec![] },
@@ -1297,7 +1402,7 @@ fn bench() -> ! {
         println!("kerning={with_kern}: write cpu {:.2} ms wall {:.2} ms", (cpu_now() - c0) * 20.0, t0.elapsed().as_secs_f64() * 20.0);
         let (c0, t0) = (cpu_now(), std::time::Instant::now());
         for _ in 0..50 {
-            let _ = evaluate(&d, false);
+            let _ = evaluate(&d, Src::Ufo, false);
         }
         println!("kerning={with_kern}: evaluate cpu {:.2} ms wall {:.2} ms", (cpu_now() - c0) * 20.0, t0.elapsed().as_secs_f64() * 20.0);
     }
@@ -1309,7 +1414,7 @@ fn bench() -> ! {
 
 fn main() {
     let args = vcore::parse_args();
-    // fixed hash keys: a verdict is a function of (case, seed), see `compile_fresh`
+    // fixed hash keys for fresh threads: a confirmed verdict is a function of (case, seed), see `compile_fresh`
     vcore::ensure_shim(args.seed);
     std::panic::set_hook(Box::new(|info| {
         if info.location().is_some_and(|l| l.file().ends_with("c09.rs")) {
@@ -1371,12 +1476,12 @@ fn main() {
             }
             let d = build_design(case);
             let h = vcore::hash64(serde_json::to_string(case).unwrap_or_default().as_bytes());
-            let mut ev = evaluate(&d, false);
+            let mut ev = evaluate(&d, case.src, false);
             hashes.push((h, ev.stats.cases_nontrivial == 1));
             add_stats(&mut stt, &ev.stats);
             if !ev.viol.is_empty() {
                 // confirm under hash keys that are a function of the seed alone (what a replay will see)
-                let again = evaluate(&d, true);
+                let again = evaluate(&d, case.src, true);
                 if again.viol.is_empty() && again.machinery.is_empty() {
                     for v in ev.viol.iter_mut() {
                         v.0 = format!("{}:only-under-some-hash-orders", v.0);
@@ -1392,6 +1497,7 @@ fn main() {
                 samples.push(json!({"sub_space": sub.name, "source": case.label(), "result": ev.summary}));
             }
             for (key, what, extra) in ev.viol {
+                let key = if case.src == Src::Glyphs3 { format!("{key}:source=glyphs3") } else { key };
                 if seen.insert(key.clone()) {
                     let mut r = json!({"design": serde_json::to_value(&d).unwrap_or(Value::Null), "case": case, "sub_space": sub.name});
                     if let (Some(a), Some(b)) = (r.as_object_mut(), extra.as_object()) {
@@ -1475,7 +1581,7 @@ fn main() {
             },
             "key_names_per_side": ["A", "C", "G1", "G2"],
             "sub_space_definitions": subs.iter().filter(|s| only.as_ref().is_none_or(|o| o == s.name)).map(|s| json!({
-                "name": s.name, "masters": s.ms.name(), "patterns": s.patterns, "group_mode": format!("{:?}", s.mode),
+                "name": s.name, "source_format": format!("{:?}", s.src), "masters": s.ms.name(), "patterns": s.patterns, "group_mode": format!("{:?}", s.mode),
                 "min_keys": s.min_keys, "max_keys": s.max_keys, "must_use_pattern": s.must_use,
                 "per_key_value_options": s.opts.iter().map(|o| o.iter().map(|v| v.map(num).unwrap_or("-".into())).collect::<Vec<_>>().join(",")).collect::<Vec<_>>()
             })).collect::<Vec<_>>(),
